@@ -135,6 +135,12 @@ static Plan plan_C01(Rng& r, const std::string& tier) {
 				else g.push(mk(c, "et_incl", {a, b, long(r.below(100) < 88 ? r.below(8) : 8 + r.below(5)), long(r.below(2))}));
 				if (r.chance(1, 6)) g.push(mk(c, "et_incl", {b, a, long(r.below(8)), long(r.below(2))}));
 			}
+			if (r.chance(1, 5)) {
+				// one operand OBJECT gets another value (a near relative is copy-assigned over it) and the question is asked again
+				g.push(mk(c, "et_twist", {r.chance(1, 2) ? a : b, long(r.below(100000)), long(r.below(4))}));
+				if (r.chance(1, 2)) g.push(mk(c, "et_incl_all", {a, b, long(r.below(100000))}));
+				else g.push(mk(c, "et_incl", {a, b, long(r.below(8)), long(r.below(2))}));
+			}
 			if (r.chance(1, 3)) { g.push(mk(c, "et_destroy", {b})); g.removed(b); }
 		}
 		progs.push_back(g.out);
@@ -165,6 +171,16 @@ static Plan plan_C02(Rng& r, const std::string&) {
 					case 1: g.push(mk(c, "et_union_disj", {a, b}), 0); break;
 					case 2: g.push(mk(c, "et_isect", {a, b, long(r.below(4))}), 0); break;
 					default: g.push(mk(c, "et_isect_bu", {a, b, long(r.below(4))}), 0); break;
+				}
+			}
+			if (r.chance(1, 5)) {
+				// an operand OBJECT gets another value and the operation is asked again
+				g.push(mk(c, "et_twist", {r.chance(1, 2) ? a : b, long(r.below(100000)), long(r.below(4))}));
+				switch (r.below(4)) {
+					case 0: g.push(mk(c, "et_union", {a, b, long(r.below(4))}), 0); break;
+					case 1: g.push(mk(c, "et_isect", {a, b, long(r.below(2))}), 0); break;
+					case 2: g.push(mk(c, "et_isect_bu", {a, b, long(r.below(2))}), 0); break;
+					default: g.push(mk(c, "et_union", {b, a, 0}), 0); break;
 				}
 			}
 			// afterwards: operands and results are mutated / destroyed; everything must keep its value
@@ -313,6 +329,7 @@ static Plan plan_C06(Rng& r, const std::string&) {
 			// other symbols get registered in the alphabet between load and complement
 			if (r.chance(1, 2)) { TAOpts o2; o2.max_states = 2; o2.max_rules = 2; g.load(gen_ta(r, pool, o2), al); }
 			g.push(mk(c, "et_complement", {a}), al == 0 ? 0 : -1);
+			if (r.chance(1, 6)) { g.push(mk(c, "et_twist", {a, long(r.below(100000)), long(r.below(4))})); g.push(mk(c, "et_complement", {a}), al == 0 ? 0 : -1); }      // the same object complemented again after it got another value
 			if (r.chance(1, 6)) g.push(cli_step(r, c, 0, 5, mdl::to_lit(A), ""));      // vata cmpl (over the default alphabet)
 			if (r.chance(1, 3)) {
 				// short-lived private alphabets: each step creates an alphabet, loads an automaton over it, registers further symbols,
@@ -426,6 +443,14 @@ static Plan plan_C14(Rng& r, const std::string&) {
 						break; }
 				}
 			}
+			if (r.chance(1, 5)) {
+				g.push(mk(c, "et_twist", {a, long(r.below(100000)), long(r.below(4))}));
+				switch (r.below(3)) {
+					case 0: g.push(mk(c, "et_reindex", {a, long(r.below(5)), long(r.below(100000)), long(r.below(2))}), 0); break;
+					case 1: g.push(mk(c, "et_collapse", {a, long(r.below(100000)), long(r.below(4))}), 0); break;
+					default: g.push(mk(c, "et_transl_syms", {a, long(r.below(100000)), long(r.below(4))}), 0); break;
+				}
+			}
 			if (r.chance(1, 3)) g.mutate_ops(1, pool);
 		}
 		progs.push_back(g.out);
@@ -448,6 +473,7 @@ static Plan plan_C15(Rng& r, const std::string&) {
 			if (r.chance(1, 3)) { o.flavor = 6; o.max_states = r.range(4, 8); }      // layered with back edges: deep witnesses, circular justifications possible
 			TA W = gen_ta(r, pool, o); int a = g.load(W, 0);
 			g.push(mk(c, "et_witness", {a}), 0);
+			if (r.chance(1, 5)) { g.push(mk(c, "et_twist", {a, long(r.below(100000)), long(r.below(4))})); g.push(mk(c, "et_witness", {a}), 0); }      // the same object asked again after it got another value
 			if (r.chance(1, 6)) g.push(cli_step(r, c, 0, 4, mdl::to_lit(W), ""));      // vata witness
 			if (r.chance(1, 4)) g.mutate_ops(1, pool);
 		}
